@@ -277,7 +277,7 @@ func AwaitRecv(ch interface{}) {
 		vsched.Block(vsched.KChanRecv, "nil chan", func() bool { return false })
 		return
 	}
-	vsched.Block(vsched.KChanRecv, "chan", func() bool {
+	vsched.Block(vsched.KChanRecv, p, func() bool {
 		return v.Len() > 0 || (vsched.X() != nil && vsched.X().IsClosed(p))
 	})
 }
@@ -295,14 +295,21 @@ func AwaitSend(ch interface{}) {
 		}
 		return
 	}
-	vsched.Block(vsched.KChanSend, "chan", func() bool {
+	vsched.Block(vsched.KChanSend, p, func() bool {
 		return v.Len() < v.Cap() || (vsched.X() != nil && vsched.X().IsClosed(p))
 	})
 }
 
 // BeforeClose is the scheduling point before close(ch).
 func BeforeClose(ch interface{}) {
-	vsched.Point(vsched.KChanClose, "chan", nil)
+	_, p := chanPtr(ch)
+	vsched.Point(vsched.KChanClose, p, nil)
+}
+
+// ChanKey returns the identity under which operations on ch are recorded.
+func ChanKey(ch interface{}) uintptr {
+	_, p := chanPtr(ch)
+	return p
 }
 
 // Closed records that ch has been closed so that receivers wake up.
@@ -346,7 +353,20 @@ func (m *Map) Delete(k interface{}) {
 }
 
 // SelectPoint is the scheduling point before a non-blocking select (a poll of channel state).
-func SelectPoint() { vsched.Point(vsched.KChanRecv, "select", nil) }
+func SelectPoint(chans ...interface{}) {
+	var m vsched.Multi
+	for _, c := range chans {
+		v := reflect.ValueOf(c)
+		if v.Kind() == reflect.Chan && !v.IsNil() {
+			m = append(m, v.Pointer())
+		}
+	}
+	if len(m) == 0 {
+		vsched.Point(vsched.KChanRecv, nil, nil)
+		return
+	}
+	vsched.Point(vsched.KChanRecv, m, nil)
+}
 
 // Yield is an explicit scheduling point (used for injected yields).
 func Yield() { vsched.Yield() }
